@@ -92,7 +92,7 @@ let rec filter f = function
 
 let rec find f = function
 | [] -> None
-| x :: tl -> if f x then Some x else find f tl
+| x :: tl0 -> if f x then Some x else find f tl0
 
 (** val combine : 'a1 list -> 'a2 list -> ('a1 * 'a2) list **)
 
